@@ -139,6 +139,28 @@ def _gen_methods(i, g, name, node, fr):
             out.choice_pos = pos
             return out
         return BoundMethod(g, choice)
+    if name == "integers":
+        def integers(interp, s, a, kw, n, f):
+            # integers(high, size=k) / integers(low, high, size=k): k values in [low, high), with repetition
+            low, high = (0, a[0]) if len(a) == 1 and "high" not in kw else (a[0], kw.get("high", a[1] if len(a) > 1 else None))
+            size = kw.get("size", a[2] if len(a) > 2 else None)
+            if high is None or kw.get("endpoint"):
+                raise Unsupported("rng.integers signature", n)
+            lo, hi = to_z3(low, Int), to_z3(high, Int)
+            _log(interp, s, "integers", (low, high, size))
+            interp.safe("integers_range_nonempty", lo < hi, n)
+            if size is None:
+                p = interp.ctx.fresh("rand_int", Int)
+                interp.ctx.assume(z3.And(p >= lo, p < hi))
+                return p
+            sz = to_z3(size, Int)
+            interp.safe("integers_size", sz >= 0, n)
+            out = new_arr(interp, (sz,), Int, "rand_ints")
+            k = z3.Int("k!ri")
+            interp.ctx.assume(z3.ForAll([k], z3.Implies(z3.And(k >= 0, k < sz), z3.And(z3.Select(out.data, k) >= lo, z3.Select(out.data, k) < hi)),
+                                        patterns=[z3.Select(out.data, k)]))
+            return out
+        return BoundMethod(g, integers)
     if name == "permutation":
         def perm(interp, s, a, kw, n, f):
             src = a[0]
